@@ -200,7 +200,7 @@ def run_session(tag, cfg, seed, ops_filter=None, redeliver=True, setup_only=Fals
         return s
     ops = ["ping"] * 6 + ["up"] * 3 + ["down"] * 5 + ["burst", "idle", "id0", "aux", "hs", "badip", "downsoon", "upsmall", "rawop", "refrag", "refrag", "dupsoon", "dupsoon", "c2c", "c2c", "reborn", "lazyoff", "reflect", "reflect"]
     if cfg.get("sendfaults"):
-        ops += ["sendfault"] * 3
+        ops += ["sendfault"] * 3 + ["dupfault"] * 2
     if s.fwd is not None:
         ops += ["fwd"] * 4
     if redeliver:
@@ -511,6 +511,32 @@ def do_op(s, mc, op, rng):
         if len(k.send_faults) < 2:
             k.send_faults.append({"proc": "srv", "dst_port": None, "errno": rng.choice([105, 1, 11]), "count": 1,
                                   "skip": rng.choice([0, 0, 1, 1, 2, 3])})
+    elif op == "dupfault":
+        # A held query whose copy (new id) the server remembers as well is answered because a packet arrives on the tun device
+        # (or on the 20 ms timer) - two sends - and the operating system refuses the first or the second of them.  Whatever the
+        # server keeps or rolls back, later events must not produce an answer for a datagram that already had one.
+        mc.drain()
+        if mc.lazy:
+            mc.query(mc.ping_labels())
+            k.run(k.now + rng.choice([2000, 6000]))
+            mc.redeliver(back=1, new_id=True, sport=rng.choice([None, 40001]))
+            k.run(k.now + 3000)
+            k.send_faults[:] = [f for f in k.send_faults if f["count"] > 0]
+            k.send_faults.append({"proc": "srv", "dst_port": None, "errno": rng.choice([105, 1, 11]), "count": 1, "skip": rng.choice([1, 1, 0])})
+            if rng.random() < 0.6:
+                f = mk_frame(s, mc, "down", rng, size=rng.choice([60, 200]))
+                s.offered_down.append(f)
+                k.offer_tun("srv", f, s.ident)
+            else:
+                f = mk_frame(s, mc, "up", rng, size=40)
+                s.sent_up.append(f)
+                mc.up_seq = (mc.up_seq + 1) & 7
+                mc.query(mc.data_labels(mc.up_seq, 0, 1, proto.deflate(f)))
+            k.run(k.now + 50000)
+            k.send_faults[:] = []
+            for _ in range(3):
+                mc.ping(wait_us=30000)
+            mc.drain()
     elif op == "dupsoon":
         # an impatient relay repeats the held ping while it sits in the server's 20 ms send-real-soon slot:
         # ping (held), then the last fragment of an upstream packet with nothing to send downstream, then the ping
